@@ -223,7 +223,9 @@ func (r *Report) Finish(verifDir string, findings []Finding) int {
 			byKey[o.Key()] = a
 			keys = append(keys, o.Key())
 		}
-		a.configs = append(a.configs, o.Config)
+		if o.Verdict != Discharged {
+			a.configs = append(a.configs, o.Config)
+		}
 		if o.Verdict == Violated || (o.Verdict == Undecided && a.worst != Violated) {
 			if a.worst == Discharged || o.Verdict == Violated {
 				a.first = o
